@@ -16,9 +16,12 @@ the chain of the theorems (UN-memoised search) and, next to it, the overlap rule
 un-memoised chain exhausts its fuel (fragment cycles below fields) the model's verdict is: other rules from the chain
 without the overlap rule, overlap rule from the memoised run - and it IS compared with the real validator (full chain
 and rule alone). On every answer where both searches ran: `memo:crosscheck` - same verdict of the rule, else
-correspondence failure `memo:verdict-differs:*` (stands in for the open half of the verdict-neutrality theorem;
-`overlap_memo_neutral_partial` proves the other half); `memo:memoised-search-crashes:*` and `doc-check-false:syn_rank`
-would contradict `overlap_memo_run_no_crash` / its hypothesis.
+correspondence failure `memo:verdict-differs:*` (verdict-neutrality is PROVED under the side conditions of the rule's
+equivalence - Props/C06_overlap_memo_complete.lean: overlap_memo_neutral_side, overlap_memo_never_loses; this cross-check
+covers the documents outside them: duplicate fragment names, cycles the un-memoised search survives);
+`memo:memoised-search-crashes:*` and `doc-check-false:syn_rank` would contradict `overlap_memo_run_never_crashes` /
+`rankSynB_of_wfIds`. The chain-level theorems for the memoised chain (Props/C06_head_memo.lean: verdict_iff_all_memo) need
+every static check below EXCEPT `rank`: counted as `headline-memo-applies`.
 
 THE TIE TO THE HEADLINE THEOREMS (Props/C06_head.lean: verdict_iff_all, attribution_all). They assume of the document
 `DocOk s d` = the three static checks `wfIdsB d`, `noMetaSubsB d`, `rankOkB s d (rankOf (computeRanks d))` + fragment
@@ -122,14 +125,14 @@ def doc_to_model(document):
     out = []
     for d in document.to_dict()["definitions"]:
         k = d["__kind__"]
-        if any(v.get("directives") for v in d.get("variable_definitions") or []):
-            raise NotModelled("variable-definition-directives")     # visited since 370692d
+        # directives of variable definitions (visited since 370692d) are part of the model: VarDef.dirs, `Directives[Const]`
         if k == "FragmentDefinition" and d.get("variable_definitions"):
             raise NotModelled("fragment-variable-definitions")      # visited since 57ee286 (experimental syntax)
         if k == "OperationDefinition":
             out.append({"k": "op", "op": d["operation"], "name": d["name"]["value"] if d.get("name") else None,
                         "vars": [{"n": v["variable"]["name"]["value"], "t": _ty(v["type"]),
-                                  "d": _value(v["default_value"]) if v.get("default_value") is not None else None}
+                                  "d": _value(v["default_value"]) if v.get("default_value") is not None else None,
+                                  "dirs": _dirs(v.get("directives"))}
                                  for v in d["variable_definitions"] or []],
                         "dirs": _dirs(d["directives"]), "sub": _sub(d["selection_set"])})
         elif k == "FragmentDefinition":
@@ -204,6 +207,16 @@ def memo_crosscheck(ctx, ans, detail):
                  "the memoised overlap search exhausts fuelBound (overlap_memo_terminates says it cannot)",
                  dict(detail, memo=m), kind="correspondence")
         return
+    if ans.get("memo_alone") is not None and m.get("memo_overlap") is not None:
+        # rule alone: `overlapMemoRun` (the function of the theorems) against the chain with the memoised search inside
+        # (`runM`, what is compared with the real validator) - same number of errors
+        o["memo_alone_vs_chain"] = o.get("memo_alone_vs_chain", 0) + 1
+        ctx.stat("memo:alone-vs-chain")
+        if ans["memo_alone"] != m["memo_overlap"]:
+            ctx.fail("memo:theorem-function-differs-from-chain",
+                     "overlapMemoRun (rule alone, the function of the theorems) and the chain run with the memoised search "
+                     "count different numbers of errors", dict(detail, memo=m, memo_alone=ans["memo_alone"]),
+                     kind="correspondence")
     if m.get("plain_overlap") is not None and m.get("memo_overlap") is not None:
         ctx.count()
         o["memo_crosscheck_done"] += 1
@@ -230,6 +243,10 @@ def doc_checks(ctx, ans, kind, detail):
         tally["true" if ck[k] else "false"][k] += 1
     if all(ck[k] for k in CHECKS):
         tally["headline_applies"] += 1
+    # Props/C06_head_memo.lean (verdict_iff_all_memo, the chain with the MEMOISED overlap rule = what /repo runs):
+    # DocOkM + SchemaOutputs = every check except the rank bound of the un-memoised search
+    if all(ck[k] for k in CHECKS if k != "rank"):
+        tally["headline_memo_applies"] = tally.get("headline_memo_applies", 0) + 1
     for k in MUST_HOLD:
         if not ck[k]:
             ctx.fail("doc-check-false:" + k,
@@ -242,6 +259,8 @@ def doc_checks(ctx, ans, kind, detail):
                 ctx.stat("headline-not-applicable:%s:%s" % (k, str(detail.get("label", "")).split(":")[0]))
         if all(ck[k] for k in CHECKS):
             ctx.stat("headline-applies")
+        if all(ck[k] for k in CHECKS if k != "rank"):
+            ctx.stat("headline-memo-applies")
     return True
 
 
